@@ -184,8 +184,13 @@ def r2(F, R):
             bools = [l for l, ty in enumerate(b.locals) if ty == "bool" and len(bool_consts(b, l)) >= 2 and all(v is not None for _, v in bool_consts(b, l))]
             for l in bools:
                 table = {}
+                listed = {v for v, _ in t["targets"]}
                 for v, tg in t["targets"]:
                     table[vmap.get(v, str(v))] = edge_const(b, tg, l)
+                if not (b.blocks[t["otherwise"]]["term"]["k"] == "unreachable" and not b.blocks[t["otherwise"]]["stmts"]):
+                    for v, n in vmap.items():
+                        if v not in listed:
+                            table[n] = edge_const(b, t["otherwise"], l)
                 if all(x is not None for x in table.values()) and len(table) == len(vmap):
                     found.append((b, bb, l, table, d))
     if len(found) != 1:
